@@ -19,7 +19,7 @@ ASSUMPTIONS = [
     "opening handshake executed concretely (real code) to reach OPEN",
 ]
 BOUNDS = {
-    "quick": "maskers: every length 0..40 and 126,127,128,129,130 x every single cut position (<=41 per length, 5 spread cuts for long ones) x {Simple, Shifted1, create_xor_masker} with 4 symbolic key octets and all payload octets symbolic; wire policy: payload lengths {0,1,5}, both roles x {maskClientFrames,maskServerFrames,applyMask} x 5 send APIs, 2 frames per run",
+    "quick": "maskers: every length 0..40 and 126,127,128,129,130 x every single cut position (<=41 per length, 5 spread cuts for long ones) x {Simple, Shifted1, create_xor_masker} with 4 symbolic key octets and all payload octets symbolic; wire policy: payload lengths {0,1,5}, both roles x {maskClientFrames,maskServerFrames,applyMask} x 7 send APIs (incl. two frames per message through the streaming and frame APIs), 2 messages per run",
     "thorough": "maskers: every length 0..300 x every cut position x all 3 classes, plus 2-cut splits for lengths<=24; wire policy additionally lengths {125,126,130} and receive-side unmasking across every single read split",
 }
 EXPECT_COVERS = ["masker:Simple", "masker:Shifted1", "masker:factory<128", "masker:factory>=128", "wire:masked", "wire:unmasked",
@@ -99,7 +99,7 @@ def simple_eq_shifted(sx, n, cut):
     return [n, cut]
 
 
-APIS = ["message", "frame", "streaming", "prepared", "fragmented"]
+APIS = ["message", "frame", "streaming", "streaming2", "frameapi2", "prepared", "fragmented"]
 
 
 def wire_policy(sx, server, api, n, mask_client, mask_server, apply_mask):
@@ -122,6 +122,21 @@ def wire_policy(sx, server, api, n, mask_client, mask_server, apply_mask):
             p.beginMessage(isBinary=True)
             p.beginMessageFrame(n)
             p.sendMessageFrameData(pl)
+            p.endMessage()
+        elif api == "streaming2":
+            # two frames per message through the streaming API: every frame draws its own key
+            h = n // 2
+            p.beginMessage(isBinary=True)
+            p.beginMessageFrame(h)
+            p.sendMessageFrameData(pl[:h])
+            p.beginMessageFrame(n - h)
+            p.sendMessageFrameData(pl[h:])
+            p.endMessage()
+        elif api == "frameapi2":
+            h = n // 2
+            p.beginMessage(isBinary=True)
+            p.sendMessageFrame(pl[:h])
+            p.sendMessageFrame(pl[h:])
             p.endMessage()
         elif api == "prepared":
             pm_ = ep.factory.prepareMessage(pl, isBinary=True)
